@@ -116,11 +116,28 @@ static struct obj* xv_obj_of(mptr w) { g_obj_word = w; return &g_obj; }
 #define XV_SWAP_HE(a, b) do { struct hazard_era* xv_s = (a); (a) = (b); (b) = xv_s; } while (0)
 #define XV_SWAP_PTR(a, b) do { mptr xv_s = (a); (a) = (b); (b) = xv_s; } while (0)
 
+/* ---------------- environment (INT): other threads change the source cell and advance the era clock ----------------
+ * The environment writes only g_src and era_clock, and this thread reads them only through the loads monitored below,
+ * so letting it act immediately before each such load is equivalent to letting it act before every atomic access
+ * (its steps commute with all other steps of this thread); it keeps the number of symbolic era-clock values small. */
+#ifdef XV_INT
+_Bool env_on;
+void xv_env(void) { }
+static void env_act(void* addr) {
+  if (!env_on) return;
+  if (addr == (void*)&g_src) g_src = nondet_uptr();
+  if (addr == (void*)&era_clock) { era_t n = nondet_u64(); if (n >= era_clock && n < ERA_MAX) era_clock = n; }   /* rely: the era clock never decreases */
+}
+#else
+#define env_act(addr) ((void)0)
+#endif
+
 /* ---------------- monitors ---------------- */
 uint64_t mon_src_loads, mon_first_src_clk, mon_last_src_clk, mon_last_era_clk, mon_era_loads;
 mptr mon_first_src_val, mon_last_src_val; era_t mon_last_era_val; int mon_first_src_order, mon_last_src_order;
 _Bool mon_unfenced_era_store, mon_src_load_unfenced, mon_last_slot_store_release = 1;
 static void mon_load(void* addr, int order) {
+  env_act(addr);
   if (addr == (void*)&g_src) {
     if (mon_src_loads == 0) { mon_first_src_clk = xv_clock; mon_first_src_val = g_src; mon_first_src_order = order; }
     mon_src_loads++; mon_last_src_clk = xv_clock; mon_last_src_val = g_src; mon_last_src_order = order; mon_src_load_unfenced = mon_unfenced_era_store;
@@ -134,16 +151,6 @@ static void mon_store(void* addr, int order) {
   }
 }
 static void mon_fence(int order) { if (order == mo_seq_cst) mon_unfenced_era_store = 0; }
-
-/* ---------------- environment (INT): other threads change the source cell and advance the era clock ---------------- */
-#ifdef XV_INT
-_Bool env_on;
-void xv_env(void) {
-  if (!env_on) return;
-  g_src = nondet_uptr();
-  era_t n = nondet_u64(); if (n >= era_clock && n < ERA_MAX) era_clock = n;     /* rely: the era clock never decreases */
-}
-#endif
 
 /* ---------------- invariant Inv_K ---------------- */
 static era_t slot_era(const struct hazard_era* s) { return (era_t)(s->value.w >> 1); }
@@ -191,7 +198,7 @@ static _Bool inv_ok(const struct guard* a, const struct guard* b) { struct inv_r
 static _Bool gi1(const struct guard* g) { return MP_get(g->ptr) == 0 || g->he != 0; }
 static _Bool gi2(const struct guard* g) { return g->he == 0 || g->ptr != 0; }
 
-struct tcb pre_cb; struct thread_data pre_td; struct guard pre_a, pre_b; era_t pre_clock; size_t pre_active;
+uint64_t g_clk0; struct tcb pre_cb; struct thread_data pre_td; struct guard pre_a, pre_b; era_t pre_clock; size_t pre_active;
 /* every slot another guard relies on still publishes the era it published before (and is not a link) */
 static _Bool others_intact(const struct guard* b) {
   for (int i = 0; i < XV_K; i++) {
@@ -257,10 +264,10 @@ static void chk_exit(const struct guard* a, const struct guard* b) {
 }
 
 /* loop invariant of acquire's retry loop (self = the guard, prev_era = local) */
-#define XV_INV_ACQ (self == &ga && !xv_threw && inv_ok(&ga, &gb) && others_intact(&gb) && guard_eq(&gb, &pre_b) \
+#define XV_INV_ACQ (self == &ga && !xv_threw && inv_ok(&ga, &gb) && gi1(&ga) && others_intact(&gb) && guard_eq(&gb, &pre_b) \
    && (ga.he == 0 ? prev_era == 0 : prev_era == slot_era(ga.he)) \
-   && order != mo_relaxed && order != mo_consume && !mon_unfenced_era_store && mon_last_slot_store_release && xv_clock < CNT_MAX && era_clock >= pre_clock)
-#define XV_HAVOC_ACQ acq_havoc(); self->he = any_slot_or_null(); self->ptr = nondet_uptr(); prev_era = nondet_u64()
+   && order != mo_relaxed && order != mo_consume && !mon_unfenced_era_store && mon_last_slot_store_release && xv_clock >= g_clk0 && era_clock >= pre_clock)
+#define XV_HAVOC_ACQ acq_havoc(); XV_ASSUME(xv_clock < CNT_MAX && mon_src_loads < CNT_MAX && mon_era_loads < CNT_MAX); self->he = any_slot_or_null(); self->ptr = nondet_uptr(); prev_era = nondet_u64()
 static void acq_havoc(void) {
   for (int i = 0; i < XV_K; i++) {
     g_cb.eras[i].guard_cnt = nondet_u64(); g_cb.eras[i].value.mark = nondet_bool(); g_cb.eras[i].value.lp = any_slot_or_null(); g_cb.eras[i].value.w = nondet_uptr();
@@ -459,13 +466,13 @@ static void op_ctor_move(void) {
 }
 
 /* the slot a guard gives up: count-1, back on the chain head exactly when the count drops to 0 */
-static void chk_released(const struct hazard_era* old, unsigned extra_on_old) {
+static void chk_released(const struct hazard_era* old, _Bool took_new_slot) {
   if (old == 0) return;
   int j = slot_idx(old); XV_ASSUME(j >= 0 && j < XV_K);
-  uint64_t c = pre_cb.eras[j].guard_cnt - 1 + extra_on_old;
+  uint64_t c = pre_cb.eras[j].guard_cnt - 1;
   XV_OBL("he.release.returns_slot", old->guard_cnt == c);
-  if (c == 0) { XV_OBL("he.release.returns_slot", g_td.hint == old && old->value.mark == 1 && old->value.lp == pre_td.hint); XV_CANARY("guard.release_to_zero"); }
-  else XV_OBL("he.release.returns_slot", old->value.mark == 0 && old->value.w == pre_cb.eras[j].value.w && g_td.hint == pre_td.hint);
+  if (c == 0) XV_OBL("he.release.returns_slot", g_td.hint == old && old->value.mark == 1 && old->value.lp == pre_td.hint);
+  else XV_OBL("he.release.returns_slot", old->value.mark == 0 && old->value.w == pre_cb.eras[j].value.w && (took_new_slot || g_td.hint == pre_td.hint));
 }
 
 static void op_assign_copy(void) {
@@ -515,8 +522,9 @@ static void op_reset(void) {
   _Bool dtor = nondet_bool();
   if (dtor) g_dtor(&ga); else g_reset(&ga);
   XV_OBL("he.reset.releases", !xv_threw && guard_empty(&ga) && guard_eq(&gb, &pre_b));
-  chk_released(pre_a.he, pre_a.he == pre_b.he ? 0 : 0);
-  if (pre_a.he == 0) { XV_OBL("he.reset.releases", cb_same()); XV_CANARY("reset.empty"); } else XV_CANARY("reset.held");
+  chk_released(pre_a.he, 0);
+  if (pre_a.he == 0) { XV_OBL("he.reset.releases", cb_same()); XV_CANARY("reset.empty"); }
+  else if (g_td.hint == pre_a.he) XV_CANARY("reset.to_zero"); else XV_CANARY("reset.shared");
   if (dtor) { chk_exit(0, &gb); XV_CANARY("reset.dtor"); } else chk_guard_pair();
   /* a second reset changes nothing */
   struct tcb cb1 = g_cb; struct thread_data td1 = g_td;
@@ -559,7 +567,7 @@ static _Bool needs_fresh_slot(era_t era) {
 
 static void op_acquire(void) {
   havoc_guard(&ga, &in_a_he, &in_a_ptr); havoc_guard(&gb, &in_b_he, &in_b_ptr); havoc_state(&ga, &gb);
-  in_src = g_src; in_order = nondet_int(); XV_ASSUME(in_order >= mo_relaxed && in_order <= mo_seq_cst);
+  in_src = g_src; in_order = nondet_int(); XV_ASSUME(in_order == mo_relaxed || in_order == mo_consume || in_order == mo_acquire || in_order == mo_seq_cst);   /* orders valid for a load */
   g_acquire_seq(&ga, &g_src, in_order);
   XV_OBL("he.guard_ops.operand_frame", guard_eq(&gb, &pre_b) && g_src == in_src && era_clock == pre_clock);
   if (xv_threw) {
@@ -570,10 +578,10 @@ static void op_acquire(void) {
   } else {
     XV_OBL("he.alloc.k_available", 1);
     XV_OBL("he.acquire.snapshot", ga.ptr == in_src);
-    if (in_src != 0) XV_OBL("he.acquire.era_stable", ga.he != 0 && ga.he->value.mark == 0 && slot_era(ga.he) == era_clock);
+    if (MP_get(in_src) != 0) XV_OBL("he.acquire.era_stable", ga.he != 0 && ga.he->value.mark == 0 && slot_era(ga.he) == era_clock);
     XV_OBL("he.acquire.null_holds_no_slot", gi2(&ga));
     chk_guard_pair();
-    if (pre_a.he != 0 && ga.he != pre_a.he) chk_released(pre_a.he, 0);
+    if (pre_a.he != 0 && ga.he != pre_a.he) chk_released(pre_a.he, 1);
     if (pre_a.he != 0 && ga.he == pre_a.he && slot_era(&pre_cb.eras[slot_idx(pre_a.he) < 0 ? 0 : slot_idx(pre_a.he)]) != era_clock) XV_CANARY("acquire.reuse_own");
     if (pre_a.he != 0 && ga.he != pre_a.he) XV_CANARY("acquire.left_shared");
     if (pre_a.he == 0 && ga.he == gb.he) XV_CANARY("acquire.share_last");
@@ -583,7 +591,7 @@ static void op_acquire(void) {
 
 static void op_acquire_if_equal(void) {
   havoc_guard(&ga, &in_a_he, &in_a_ptr); havoc_guard(&gb, &in_b_he, &in_b_ptr); havoc_state(&ga, &gb);
-  in_src = g_src; in_expected = nondet_uptr(); in_order = nondet_int(); XV_ASSUME(in_order >= mo_relaxed && in_order <= mo_seq_cst);
+  in_src = g_src; in_expected = nondet_uptr(); in_order = nondet_int(); XV_ASSUME(in_order == mo_relaxed || in_order == mo_consume || in_order == mo_acquire || in_order == mo_seq_cst);   /* orders valid for a load */
   _Bool r = g_acquire_if_equal(&ga, &g_src, in_expected, in_order);
   XV_OBL("he.guard_ops.operand_frame", guard_eq(&gb, &pre_b) && g_src == in_src && era_clock == pre_clock);
   if (xv_threw) {
@@ -599,34 +607,61 @@ static void op_acquire_if_equal(void) {
       if (in_src != 0) { XV_OBL("he.acquire.era_stable", ga.he != 0 && ga.he->value.mark == 0 && slot_era(ga.he) == era_clock); XV_CANARY("aie.true"); }
       else XV_CANARY("aie.true_null");
     } else { XV_OBL("he.acquire_if_equal.iff", guard_empty(&ga)); XV_CANARY("aie.false"); }
-    if (pre_a.he != 0 && ga.he != pre_a.he) chk_released(pre_a.he, 0);
+    if (pre_a.he != 0 && ga.he != pre_a.he) chk_released(pre_a.he, 1);
     chk_guard_pair(); XV_OBL("he.guard_ops.empty_holds_no_slot", gi2(&ga));
   }
 }
 
+#ifndef XV_OPS_LO
+#define XV_OPS_LO 0
+#define XV_OPS_HI 9
+#endif
+#define XV_IN_GROUP(n) ((n) >= XV_OPS_LO && (n) <= XV_OPS_HI)     /* a run covers a group of operations */
 void h_guards(void) {
   in_op = nondet_uint();
-  switch (in_op) {
-    case 0: op_ctor_ptr(); break;
-    case 1: op_ctor_copy(); break;
-    case 2: op_ctor_move(); break;
-    case 3: op_assign_copy(); break;
-    case 4: op_assign_move(); break;
-    case 5: op_reset(); break;
-    case 6: op_swap(); break;
-    case 7: op_reclaim(); break;
-    case 8: op_acquire(); break;
-    default: op_acquire_if_equal(); break;
-  }
+#if XV_IN_GROUP(0)
+  if (in_op == 0) op_ctor_ptr();
+#endif
+#if XV_IN_GROUP(1)
+  if (in_op == 1) op_ctor_copy();
+#endif
+#if XV_IN_GROUP(2)
+  if (in_op == 2) op_ctor_move();
+#endif
+#if XV_IN_GROUP(3)
+  if (in_op == 3) op_assign_copy();
+#endif
+#if XV_IN_GROUP(4)
+  if (in_op == 4) op_assign_move();
+#endif
+#if XV_IN_GROUP(5)
+  if (in_op == 5) op_reset();
+#endif
+#if XV_IN_GROUP(6)
+  if (in_op == 6) op_swap();
+#endif
+#if XV_IN_GROUP(7)
+  if (in_op == 7) op_reclaim();
+#endif
+#if XV_IN_GROUP(8)
+  if (in_op == 8) op_acquire();
+#endif
+#if XV_IN_GROUP(9)
+  if (in_op == 9) op_acquire_if_equal();
+#endif
 }
 
 /* =====================================================  guard level (INT)  ===================================================== */
 void h_int(void) {
 #ifdef XV_INT
   havoc_guard(&ga, &in_a_he, &in_a_ptr); havoc_guard(&gb, &in_b_he, &in_b_ptr); havoc_state(&ga, &gb);
-  in_order = nondet_int(); XV_ASSUME(in_order >= mo_relaxed && in_order <= mo_seq_cst);
-  uint64_t clk0 = xv_clock;
+  in_order = nondet_int(); XV_ASSUME(in_order == mo_relaxed || in_order == mo_consume || in_order == mo_acquire || in_order == mo_seq_cst);   /* orders valid for a load */
+  g_clk0 = xv_clock;
   in_op = nondet_uint();
+#ifndef XV_INT_OP
+#define XV_INT_OP 2
+#endif
+#if XV_INT_OP != 1
   if (in_op == 0) {
     env_on = 1; g_acquire(&ga, &g_src, in_order); env_on = 0;
     XV_OBL("he.guard_ops.operand_frame", guard_eq(&gb, &pre_b));
@@ -635,14 +670,18 @@ void h_int(void) {
       XV_OBL("he.acquire.exc_safe", xv_threw == XV_EXC_bad_hazard_era_alloc && gi1(&ga));
       XV_CANARY("int.acquire.throw");
     } else {
-      XV_OBL("he.acquire.snapshot", mon_src_loads >= 1 && mon_last_src_clk >= clk0 && ga.ptr == mon_last_src_val);
-      XV_OBL("he.acquire.era_stable", ga.he != 0 && ga.he->value.mark == 0 && slot_era(ga.he) == mon_last_era_val && mon_last_era_clk > mon_last_src_clk);
+      XV_OBL("he.acquire.snapshot", mon_src_loads >= 1 && mon_last_src_clk >= g_clk0 && ga.ptr == mon_last_src_val);
+      if (MP_get(ga.ptr) != 0)
+        XV_OBL("he.acquire.era_stable", ga.he != 0 && ga.he->value.mark == 0 && slot_era(ga.he) == mon_last_era_val && mon_last_era_clk > mon_last_src_clk);
       XV_OBL("he.acquire.sync", XV_IS_ACQUIRE(mon_last_src_order) && mon_last_src_order != mo_consume && !mon_src_load_unfenced);
       chk_guard_pair();
-      if (ga.ptr != 0) XV_CANARY("int.acquire.nonnull");
+      if (MP_get(ga.ptr) != 0) XV_CANARY("int.acquire.nonnull");
       if (ga.he != pre_a.he) XV_CANARY("int.acquire.new_slot");
     }
-  } else {
+  }
+#endif
+#if XV_INT_OP != 0
+  if (in_op != 0) {
     in_expected = nondet_uptr();
     env_on = 1; _Bool r = g_acquire_if_equal(&ga, &g_src, in_expected, in_order); env_on = 0;
     XV_OBL("he.guard_ops.operand_frame", guard_eq(&gb, &pre_b));
@@ -667,5 +706,6 @@ void h_int(void) {
       chk_guard_pair(); XV_OBL("he.guard_ops.empty_holds_no_slot", gi2(&ga));
     }
   }
+#endif
 #endif
 }
